@@ -6,23 +6,22 @@ SPEC = dict(
     entries=dict(
         quick=[
             dict(name="c59_ops", bounds="every sequence of 4 operations, at most 3 events; run = EventScheduler::checkEvents + AsyncCallQueue::fire; " + _OPS,
-                 reach=["done", "fired", "cancelled", "batch-of-several", "heavy-stop"], sample_every=97),
-            dict(name="c59_batches", bounds="3 schedules (k symbolic in 0..3, weight symbolic, optional clock step between them), optional cancel of a symbolic victim, then twice {clock step, run}, then drain",
-                 reach=["done", "fired", "cancelled", "batch-of-several", "heavy-stop"], sample_every=197),
-            dict(name="c59_cancel_all", bounds="3 schedules (k in 0..2, weight and handler symbolic, optional clock step between them), eventDelete(handler, nullptr) for either handler, clock step, run, drain; "
-                 "excluded (KNOWN-FINDING candidate): two events of the cancelled handler adjacent in the queue",
-                 reach=["done", "fired", "cancelled"], sample_every=97),
+                 reach=["done", "fired", "cancelled", "batch-of-several", "heavy-stop"], sample_every=97, max_samples=3),
+            dict(name="c59_batches", bounds="3 schedules at one instant (k symbolic in 0..2, weight symbolic), optional cancel of a symbolic victim, clock step, run, then drain",
+                 reach=["done", "fired", "cancelled", "batch-of-several", "heavy-stop"], sample_every=197, max_samples=3),
+            dict(name="c59_cancel_all", bounds="3 schedules at one instant (k in 0..2, weight and handler symbolic), eventDelete(handler, nullptr) for either handler, clock +0.5 s, run, drain",
+                 reach=["done", "fired", "cancelled"], sample_every=97, max_samples=3),
             dict(name="c59_loop", bounds="every sequence of 4 operations, at most 3 events; run = EventLoop::runOnce() with the scheduler registered as a secondary engine and a recording primary engine; " + _OPS,
-                 reach=["done", "fired", "cancelled", "batch-of-several", "loop-ran"], sample_every=97),
+                 reach=["done", "fired", "cancelled", "batch-of-several", "loop-ran"], sample_every=97, max_samples=3),
         ],
         thorough=[
             dict(name="c59_ops", bounds="every sequence of 5 operations, at most 3 events; " + _OPS,
-                 reach=["done", "fired", "cancelled", "batch-of-several", "heavy-stop"], sample_every=997),
-            dict(name="c59_batches", bounds="4 schedules (k symbolic in 0..3, weight symbolic, optional clock step between them), optional cancel, twice {clock step, run}, drain",
-                 reach=["done", "fired", "cancelled", "batch-of-several", "heavy-stop"], sample_every=1997),
-            dict(name="c59_cancel_all", bounds="as quick with 4 schedules", reach=["done", "fired", "cancelled"], sample_every=997),
+                 reach=["done", "fired", "cancelled", "batch-of-several", "heavy-stop"], sample_every=997, max_samples=3),
+            dict(name="c59_batches", bounds="as quick with 4 schedules",
+                 reach=["done", "fired", "cancelled", "batch-of-several", "heavy-stop"], sample_every=1997, max_samples=3),
+            dict(name="c59_cancel_all", bounds="as quick with 4 schedules", reach=["done", "fired", "cancelled"], sample_every=997, max_samples=3),
             dict(name="c59_loop", bounds="every sequence of 5 operations, at most 3 events, run = EventLoop::runOnce(); " + _OPS,
-                 reach=["done", "fired", "cancelled", "batch-of-several", "loop-ran"], sample_every=997),
+                 reach=["done", "fired", "cancelled", "batch-of-several", "loop-ran"], sample_every=997, max_samples=3),
         ]),
     timeout=dict(quick=300, thorough=1800),
     stubs=["current_dtime is a plain global set by the harness (no gettimeofday)", "debug_trap() counts calls (tools.cc not linked)", "fatal()/fatal_dump() are violations",
